@@ -151,6 +151,48 @@ Proof.
     apply option_accepts_iff; cbn; repeat (destruct H as [H|H]; [subst; auto 6|]); subst; auto 6.
 Qed.
 
+(* values of any Python type: accepted iff the value is None or a string AND is listed for that option *)
+Theorem option_accepts_val_iff o v :
+  option_accepts_val o v = true <-> exists x, pyval_as_option v = Some x /\ In x (documented_options o).
+Proof.
+  unfold option_accepts_val. destruct (pyval_as_option v) as [x|] eqn:Hx.
+  - rewrite option_accepts_iff. split.
+    + intros Hin. exists x. split; [reflexivity | exact Hin].
+    + intros [y [Hy Hin]]. injection Hy as Hy. subst y. exact Hin.
+  - split; [discriminate|]. intros [y [Hy _]]. discriminate Hy.
+Qed.
+
+Theorem option_rejects_other_types o v :
+  (forall s, v <> PStr s) -> v <> PNone -> option_accepts_val o v = false.
+Proof.
+  intros Hs Hn. destruct v as [|s|b|z|f|s|l|l]; try reflexivity.
+  - exfalso. apply Hn. reflexivity.
+  - exfalso. apply (Hs s). reflexivity.
+Qed.
+
+(* a falsy value is accepted only if it is None itself (and None is listed): '', False, 0, 0.0, b'', (), [] are
+   never taken for None *)
+Theorem falsy_accepted_is_None o v : falsy v = true -> option_accepts_val o v = true -> v = PNone.
+Proof.
+  intros Hf Ha. destruct v as [|s|b|z|f|s|l|l]; try reflexivity; try discriminate Ha.
+  cbn in Hf. apply String.eqb_eq in Hf. subst s. destruct o; vm_compute in Ha; discriminate Ha.
+Qed.
+
+Theorem falsy_unknowns_rejected o :
+  option_accepts_val o (PStr "") = false /\ option_accepts_val o (PBool false) = false /\
+  option_accepts_val o (PInt 0) = false /\ option_accepts_val o (PFloat 0) = false /\
+  option_accepts_val o (PBytes "") = false /\ option_accepts_val o (PTuple []) = false /\
+  option_accepts_val o (PList []) = false.
+Proof. destruct o; vm_compute; repeat split; reflexivity. Qed.
+
+(* spelling matters: another case or surrounding white space makes a value unknown *)
+Theorem option_spelling_exact :
+  option_accepts_val OCenter (PStr "Peak") = false /\ option_accepts_val OCenter (PStr " peak") = false /\
+  option_accepts_val OCenter (PStr "peak ") = false /\ option_accepts_val OBurstMethod (PStr "Cycles") = false /\
+  option_accepts_val OFirstExtrema (PStr "None") = false /\ option_accepts_val ODirection (PStr "BOTH") = false /\
+  option_accepts_val OProgress (PStr "Tqdm") = false /\ option_accepts_val OProgress (PStr "tqdm ") = false.
+Proof. vm_compute. repeat split; reflexivity. Qed.
+
 Theorem dims_guards : (forall d, bycycle_fit_dim_ok d = true <-> d = 1%nat) /\
                       (forall d, group_fit_dim_ok d = true <-> d = 2%nat \/ d = 3%nat).
 Proof.
